@@ -7,6 +7,9 @@ import re
 
 ROOT = os.path.dirname(os.path.dirname(os.path.abspath(__file__)))
 NOTES = {
+    "C18_r4m1_src_asphalt_core__event_py_the_registry": "not a C18 violation on the unchanged `Context` (contexts compare by identity, and a value-equal `Context` subclass already fails in the unchanged parent's child registry); the changed mechanism - value-equal owners sharing one channel - is C11's and is reported there through the value-equal owner class",
+    "C01_r4m2_context__run_teardown_callbacks_no_longer_pops_the_callback": "the same callable object registered twice with another registration in between (one invocation per registration)",
+    "C08_r4m1_context_start_service_task__context_py_now_registers_finaliz": "a callback registered by another task while a service task is still coming up",
     "C02_cow_factory_table_unshare": "factory visibility probed through `get_resources`; oracle for not-yet-generated factories",
     "C02_snapshot_at_enter": "structured tree plans in the generator",
     "C03_free_types_before_await": "pair-stealing during a suspended generation",
